@@ -472,6 +472,7 @@ func runC10(c *Ctx) {
 	clauseLRUPin(c, "C10.h")
 	clauseCacheReleaseDiscipline(c, "C10.i")
 	clauseTTLOwnership(c, "C10.j")
+	clauseGivenUpResultIsReleased(c, "C10.k")
 	c.assume("groupcache/lru removes the element from its index before invoking OnEvicted and is not concurrency-safe by itself (protected by LRUCache.mu)")
 	c.assume("sync.Once, sync.Mutex and time.AfterFunc behave as documented")
 }
